@@ -1,6 +1,6 @@
 (* The General Decimal Arithmetic rules for special operands (NaN, sNaN, infinities, signed zeros),
    written as a table independent of the model.  [expect] says what the result must be. *)
-From Apd Require Import Generated.Consts Model.Base Model.NumDigits.
+From Apd Require Import Generated.Consts Model.Base Model.NumDigits Spec.Order.
 Open Scope Z_scope.
 
 Inductive sop := SAdd | SSub | SMul | SQuo | SQuoInteger | SRem | SAbs | SNeg | SRound | SReduce | SQuantize
@@ -34,6 +34,14 @@ Definition nan_rule (x : dec) (y : option dec) : option expect :=
       else if isQ y then Some (ex_plain (KCopy y)) else None
   | None => if isQ x then Some (ex_plain (KCopy x)) else None
   end.
+
+(* a finite decimal that denotes an integer / an odd integer (coefficient >= 0) *)
+Definition is_int (y : dec) : bool :=
+  isF y && ((0 <=? exp y) || (coeff y mod 10 ^ (- exp y) =? 0)).
+Definition int_odd (y : dec) : bool :=
+  isF y && (if 0 <? exp y then false
+            else (coeff y mod 10 ^ (- exp y) =? 0) && Z.odd (coeff y / 10 ^ (- exp y))).
+Definition one_dec : dec := mkDec Finite false 0 1.
 
 (* None = the table does not speak about this cell (ordinary finite arithmetic) *)
 Definition special_table (o : sop) (floor_mode : bool) (x y : dec) : option expect :=
@@ -78,10 +86,32 @@ Definition special_table (o : sop) (floor_mode : bool) (x y : dec) : option expe
     | SLn | SLog10 =>
         if isZ x then Some (ex_plain (KInf true))
         else if neg x then Some ex_invalid
-        else if isI x then Some (ex_plain (KInf false)) else None
-    | SExp => if isI x then (if neg x then Some (ex_plain (KZero false)) else Some (ex_plain (KInf false))) else None
+        else if isI x then Some (ex_plain (KInf false))
+        else if cmp_spec x one_dec =? 0 then Some (ex_plain (KZero false))      (* ln 1 = log10 1 = 0 *)
+        else None
+    | SExp =>
+        if isI x then (if neg x then Some (ex_plain (KZero false)) else Some (ex_plain (KInf false)))
+        else if isZ x then Some (ex_plain KOne)                                  (* exp(+-0) = 1 *)
+        else None
     | SPow =>
-        if isZ x && isZ y then Some ex_invalid else None
+        (* the result is negative exactly when the base is negative and the exponent an odd integer *)
+        let sg := neg x && int_odd y in
+        if isI x then
+          if isZ y then Some (ex_plain KOne)
+          else if neg x && (isI y || negb (is_int y)) then Some ex_invalid
+          else if neg y then Some (ex_plain (KZero sg)) else Some (ex_plain (KInf sg))
+        else if isZ x then
+          if isZ y then Some ex_invalid
+          else if neg y then Some (ex_plain (KInf sg)) else Some (ex_plain (KZero sg))
+        else if isZ y then Some (ex_plain KOne)
+        else if isI y then
+          if neg x then Some ex_invalid
+          else let o := cmp_spec x one_dec in
+               if o =? -1 then Some (ex_plain (if neg y then KInf false else KZero false))
+               else if o =? 0 then Some (ex_plain KOne)
+               else Some (ex_plain (if neg y then KZero false else KInf false))
+        else if neg x && negb (is_int y) then Some ex_invalid
+        else None
     end
   end.
 
